@@ -47,7 +47,8 @@ THEOREMS = [
     "Lineno.attr_field_only_correct", "Lineno.attr_own_only_correct", "Lineno.attr_both_partial",
     "Lineno.attr_both_counterexample",
     # hunter round
-    "Lineno.reportedLineS_eq", "Lineno.reportedLineSOld_eq_partial", "Lineno.reportedLineSOld_counterexample",
+    "Lineno.reportedLineS_eq_partial", "Lineno.reportedLineS_epytext", "Lineno.reportedLineS_lone_cr_counterexample",
+    "Lineno.reportedLineSOld_eq_partial", "Lineno.reportedLineSOld_counterexample",
     "Lineno.version_arg_xref_offset", "Lineno.version_arg_xref_partial", "Lineno.version_arg_xref_counterexample",
     "Lineno.section_title_xref_offset", "Lineno.toc_does_not_report", "Lineno.toc_xref_offset_old", "Lineno.section_title_counterexample",
     "Lineno.doc_assignment_line_correct", "Lineno.doc_assignment_field_line_correct_partial",
@@ -78,6 +79,11 @@ PARTIAL = {
     "Lineno.attr_both_partial":
         "an attribute documented by a class field and by its own docstring: right only if both docstrings start on the same line, "
         "i.e. never (attr_both_counterexample; open finding line:attr-field-and-inline-docstring)",
+    "Lineno.reportedLineS_eq_partial":
+        "reStructuredText: what pydoctor prints is reportedLine when the cleaned docstring has no carriage return; a lone '\\r' (written as "
+        "an escape) is a line break for docutils' splitlines() and is not blanked by ce72216 (reportedLineS_lone_cr_counterexample; open finding "
+        "line:rst-lone-cr-line-boundary). epytext needs no hypothesis (reportedLineS_epytext, exercised with every splitlines() boundary); "
+        "google / numpy: napoleon splits with splitlines() (lineShift), only the span is promised",
     "Lineno.version_arg_xref_partial":
         "a reference in the argument of versionadded / versionchanged / deprecated is on the directive's line only when the directive is "
         "the last line of the docstring; otherwise the line after the directive's block (version_arg_xref_offset, "
@@ -237,8 +243,12 @@ def gen_blocks(rng, fmt: str, owner: str, names: Names, raw: bool, opening: bool
             nm = names.new()
             t = "%s about `%s`" % (rng.choice(WORDS).capitalize(), nm)
             return {"lines": [t, "=" * (len(t) + rng.randint(0, 2))], "constructs": [("S", 0, nm)], "kind": "title"}
-        # a paragraph holding characters at which str.splitlines() (docutils) breaks lines and Python does not
-        ch = [rng.choice(["\u2028", "\u2029", "\x85", "\x1c", "\x1d", "\x1e"]) for _ in range(rng.randint(1, 2))]
+        # a paragraph holding characters at which str.splitlines() (docutils, napoleon) breaks lines and Python does not;
+        # a lone CR, VT and FF can only be written as escapes, i.e. in non-raw literals (FF makes epytext's output unparsable: C08)
+        pool = ["\u2028", "\u2029", "\x85", "\x1c", "\x1d", "\x1e"]
+        if not raw:
+            pool += ["\r", "\r", "\x0b"] + ([] if fmt == "e" else ["\x0c"])
+        ch = [rng.choice(pool) for _ in range(rng.randint(1, 2))]
         return {"lines": ["Records%sfields%s." % (ch[0], ch[1] + "chars" if len(ch) > 1 else "")], "constructs": [], "kind": "uline"}
 
     for b in range(nbody):
@@ -254,6 +264,8 @@ def gen_blocks(rng, fmt: str, owner: str, names: Names, raw: bool, opening: bool
             extras.remove("uline")
         for k in extras:
             blocks.insert(rng.randint(1, len(blocks)), rst_extra(k))
+    if fmt != "r" and not names.ptypes and rng.random() < 0.08:
+        blocks.insert(rng.randint(1, len(blocks)), rst_extra("uline"))       # epytext splits on '\n' only; napoleon on all of them
     if fmt in "er":
         at, colon = ("@", ":") if fmt == "e" else (":", ":")
         for _ in range(rng.choice([0, 1, 1, 2, 3])):
@@ -399,7 +411,8 @@ def build_literal(doc: Dict[str, Any], ind: int) -> Tuple[List[str], str, List[i
         raw.append(" " * ind)
     value = "\n".join(raw)
     q = L["quote"]
-    src = (" " * ind + ("r" if L["raw"] else "") + q + value + q).split("\n")
+    written = value if L["raw"] else value.replace("\r", "\\r").replace("\x0b", "\\x0b").replace("\x0c", "\\x0c")
+    src = (" " * ind + ("r" if L["raw"] else "") + q + written + q).split("\n")
     return src, value, [starts[i] for i in range(len(doc["blocks"]))]
 
 
@@ -970,6 +983,12 @@ def corpus_modules() -> List[Dict[str, Any]]:
         {"lines": ["Records\u2028fields\x1echars."], "constructs": [], "kind": "uline"},
         {"lines": ["Second paragraph `zq1`."], "constructs": [("X", 0, "zq1")], "kind": "para"},
         {"lines": [":zf2: unknown field"], "constructs": [("U", 0, "zf2")], "kind": "field"}]})])
+    # seeded C16-r5-1 (epytext must split on '\n' only) and the lone-CR finding of reST
+    for fmt, X, U in (("e", " L{zq1}", "@zf2: unknown field"), ("r", " `zq1`", ":zf2: unknown field")):
+        mod("splitlines-boundary-" + FMTS[fmt], fmt, [("function", below0, 0, {"layout": dict(plain), "blocks": [
+            {"lines": ["Strip the trailing\rbyte and\x0bthe\u2028rest."], "constructs": [], "kind": "uline"},
+            {"lines": ["Second paragraph" + X + "."], "constructs": [("X", 0, "zq1")], "kind": "para"},
+            {"lines": [U], "constructs": [("U", 0, "zf2")], "kind": "field"}]})])
     # finding 2 (google / numpy line past the end)
     for fmt, lines in (("n", ["Parameters", "----------", "zp1: int", "zp2: int", "zp3: int", "zp4: int"]),
                        ("g", ["Args:", "    zp1 (int): x", "    zp2 (int): x", "    zp3 (int): x", "    zp4 (int): x"])):
@@ -1019,17 +1038,26 @@ def oracle_er(ctx: Ctx, inp, fmt: str, doc, exp, uniq, span) -> None:
 
     vlines = doc["value"].split("\n")
 
+    def crshift(first: Optional[int]) -> int:
+        """lone carriage returns before the block that starts on line `first` (docutils breaks the line there)"""
+        if fmt != "r" or first is None:
+            return 0
+        return sum(l.count("\r") - (1 if l.endswith("\r") else 0) for l in vlines[:first - span[0]])
+
     def ushift(first: Optional[int]) -> int:
         """extra str.splitlines() boundaries (docutils' line structure) before the block that starts on line `first`"""
         if fmt != "r" or first is None:
             return 0
-        return sum(l.count(c) for l in vlines[:first - span[0]] for c in "\x1c\x1d\x1e\x85\u2028\u2029")
+        return crshift(first) + sum(l.count(c) for l in vlines[:first - span[0]] for c in "\x1c\x1d\x1e\x85\u2028\u2029")
 
     def signature(kind: str, delta: int, first: Optional[int] = None) -> str:
         # classifier only; the verdict (reported line != planted line) does not depend on it
         us = ushift(first)
+        cr = crshift(first)
         if shift and delta == shift + (1 if (fmt == "r" and kind == "E") else 0):
             return "line:overindented-leading-blank"
+        if cr and delta == shift + cr + (1 if (fmt == "r" and kind == "E") else 0):
+            return "line:rst-lone-cr-line-boundary"
         if us and delta == shift + us + (1 if (fmt == "r" and kind == "E") else 0):
             return "line:rst-unicode-line-boundary"
         return "line:%s-%s:%+d" % (tag, {"E": "markup-error", "X": "xref", "U": "unknown-field", "P": "bad-param"}[kind], delta)
@@ -1064,7 +1092,7 @@ def oracle_er(ctx: Ctx, inp, fmt: str, doc, exp, uniq, span) -> None:
                 near = ln - want
             if not (want and (ln - want) in err_lines):
                 for cand in err_lines:      # else: a planted error line that explains the report through docutils' line structure
-                    if ushift(cand) and ln - cand == shift + ushift(cand) + (1 if fmt == "r" else 0):
+                    if ushift(cand) and ln - cand - shift - (1 if fmt == "r" else 0) in (ushift(cand), crshift(cand)):
                         near = cand
             ctx.fail(signature("E", ln - near, near), {**inp, "object": doc["name"], "reported": ln, "planted_error_lines": err_lines, "problem": ["E", ""]},
                      f"{where}: markup error in the block starting on line {near} is reported on line {ln}")
@@ -1084,7 +1112,7 @@ def oracle_er(ctx: Ctx, inp, fmt: str, doc, exp, uniq, span) -> None:
                          f"{where}: '{name}' in the section title on line {first} is reported a second time, on line {ln} (the docstring's first line), "
                          f"while the sidebar's table of contents is rendered")
                 continue
-            if pc == "S" and ln - first - 1 in (shift, shift + ushift(first)):
+            if pc == "S" and ln - first - 1 in (shift, shift + ushift(first), shift + crshift(first)):
                 ctx.fail("line:rst-section-title-xref:underline" if ln - first - 1 == 0 else signature(kind, ln - first - 1, first),
                          {**inp, "object": doc["name"], "reported": ln, "expected": first, "problem": [kind, name]},
                          f"{where}: '{name}' in the section title on line {first} is reported on line {ln} (the title's underline)")
